@@ -38,6 +38,20 @@ let () =
                  | None -> ())
     | None -> ()) out;
   let dumps = Hashtbl.create 16 in
+  (* inquiry stability: (kind, slot) -> epoch, bumped by every call that (re)binds or releases the slot;
+     (op, kind, slot, epoch, other args) -> first answer *)
+  let epochs = Hashtbl.create 16 and answers = Hashtbl.create 64 in
+  let readers = ref 0 in   (* calls so far that are neither refused-able mutators nor inquiries: they may legitimately change what a handle shows *)
+  let kind_of name = match name with
+    | "vsinfo" | "vsattach" | "vsattachn" | "vsdetach" -> Some "vs"
+    | "vinfo" | "vattach" | "vattachn" | "vdetach" -> Some "vg"
+    | "sdinfo" | "sdselect" | "sdcreate" | "sdendaccess" -> Some "sds"
+    | "grinfo" | "grselect" | "grcreate" | "grendaccess" -> Some "ri"
+    | "inquire" | "startaccess" | "startread" | "startwrite" | "endaccess" | "hlcreate" | "hxcreate" | "hccreate" | "hmccreate" -> Some "aid"
+    | "sdfileinfo" | "sdstart" | "sdend" -> Some "sd"
+    | "grfileinfo" | "grstart" | "grend" -> Some "gr"
+    | _ -> None in
+  let is_inquiry name = List.mem name ["vsinfo"; "vinfo"; "sdinfo"; "grinfo"; "inquire"; "sdfileinfo"; "grfileinfo"] in
   let st = ref init in
   let dead = ref false in
   List.iteri (fun i line ->
@@ -45,7 +59,7 @@ let () =
     let toks = List.filter (fun s -> s <> "") (String.split_on_char ' ' (String.trim line)) in
     match toks with
     | [] -> Printf.printf "%d skip\n" ln
-    | "history" :: _ -> st := init; dead := false; Hashtbl.reset dumps; Printf.printf "%d history\n" ln
+    | "history" :: _ -> st := init; dead := false; Hashtbl.reset dumps; Hashtbl.reset epochs; Hashtbl.reset answers; Printf.printf "%d history\n" ln
     | t :: _ when t.[0] = '#' -> Printf.printf "%d skip\n" ln
     | name :: args ->
       if !dead then Printf.printf "%d dead\n" ln else
@@ -75,7 +89,29 @@ let () =
                let ok = ref true in
                Hashtbl.iter (fun h _ -> if h <> "#baseline" && not (Hashtbl.mem cur h) then ok := false) dumps;
                if !ok then 1 else 0 end
-           | _ -> 0 in
+           | _ ->
+             (match kind_of name, args with
+              | Some k, slot :: _ ->
+                let ep = try Hashtbl.find epochs (k, slot) with Not_found -> 0 in
+                if is_inquiry name then begin
+                  match rt with
+                  | "ok" :: ans ->
+                    let ans = List.filter (fun s -> not (Stdlib.String.length s > 2 && Stdlib.String.sub s 0 2 = "w=")) ans in
+                    let key = (name, k, slot, ep) in
+                    (match Hashtbl.find_opt answers key with
+                     | Some (a0, r0) when r0 = !readers -> if a0 = ans then 1 else 2   (* only mutators / inquiries in between *)
+                     | _ -> Hashtbl.replace answers key (ans, !readers); 1)
+                  | _ -> 0
+                end else begin
+                  (match rt with "na" :: _ -> () | _ -> if not (is_mutator (coq_string name) (List.map (fun t -> z (num_of_tok t)) args)) then incr readers);
+                  (match rt with "na" :: _ -> () | _ ->
+                     Hashtbl.replace epochs (k, slot) (ep + 1);
+                     (* closing an interface releases everything selected through it *)
+                     if List.mem name ["sdend"; "grend"; "sdstart"; "grstart"] then begin Hashtbl.reset epochs; Hashtbl.reset answers end); 0 end
+              | _ -> if name = "closeall" || name = "hclose" || name = "hopen" || name = "vend" || name = "vstart" then begin
+                       Hashtbl.reset epochs; Hashtbl.reset answers end;
+                     (match rt with "na" :: _ -> () | _ -> if not (is_mutator (coq_string name) (List.map (fun t -> z (num_of_tok t)) args)) then incr readers);
+                     0) in
          let ev = { e_name = coq_string name; e_args = List.map (fun t -> z (num_of_tok t)) args; e_rc = rc;
                     e_wbytes = z wb; e_wcalls = z wc; e_wcreates = z wcr; e_aux = z aux } in
          let (s', v) = step !st ev in
